@@ -118,19 +118,19 @@ def build(P, taps, Wb, nsb, npol, nant, bits, start_chan, num_chans, bpf, asc=Tr
     return be, ant, [lift(x) for x in w]
 
 
-def spec_value(a, p, n, k, P, taps, ws, digitize):
+def spec_value(a, p, n, k, P, taps, ws, digitize, sample=None):
     """(re, im) of the recorded sample: antenna a, pol p, spectrum n (global), PFB channel k"""
     xs = {}
 
     class X:
         def __getitem__(self, i):
-            s = SF(RV(a), RV(p), RV(i))
+            s = SF(RV(a), RV(p), RV(i)) if sample is None else sample(a, p, i)
             return ((QD(RV(a), RV(p), s) if digitize else s), RV(0))
     re, im = pfb_spec(X(), ws, n, k, P, taps)
     return QR(RV(a), RV(p), re), QI(RV(a), RV(p), im)
 
 
-def block_pairs(block, bi, cfg, ws, digitize):
+def block_pairs(block, bi, cfg, ws, digitize, sample=None):
     """pairs (stored term, spec term) for one block given as a (obsnchan, ncol) array or flat list"""
     P, taps, Wb, npol, nant, bits, start_chan, num_chans = cfg
     T = taps * Wb
@@ -142,7 +142,7 @@ def block_pairs(block, bi, cfg, ws, digitize):
             row = a * num_chans + c
             for t in range(T):
                 for p in range(npol):
-                    re, im = spec_value(a, p, bi * T + t, start_chan + c, P, taps, ws, digitize)
+                    re, im = spec_value(a, p, bi * T + t, start_chan + c, P, taps, ws, digitize, sample)
                     if bits == 8:
                         col = (t * npol + p) * 2
                         pairs.append((block[row * ncol + col], re))
@@ -205,6 +205,156 @@ def job_record(P, taps, Wb, nsb, npol, nant, bits, start_chan, num_chans, nblock
     if not okd:
         recs.append(cex('C02:samples-drawn', f'antenna asked for {drawn} samples in requests {ant.reqs[:6]}', pl, name=tag + ':samples-drawn'))
     return recs
+
+
+def job_array_source(P, taps, Wb, nsb, npol, delays, nblocks):
+    """the real MultiAntennaArray (seeded noise on every own and background stream, as symbolic draws) as the source:
+    the recording equals the reference pipeline applied to own_i(k) + background(k + max_delay - delay_i), or the
+    configuration is refused -- allowed only when some later request is not larger than the largest delay"""
+    from props.C10 import proxy as gen_proxy, ZF
+    recs = []
+    nant, bits = len(delays), 8
+    tag = f"C02:array:{(P, taps, Wb, nsb, npol, tuple(delays), nblocks)}"
+    pl = dict(fn='array', P=P, taps=taps, Wb=Wb, nsb=nsb, npol=npol, delays=list(delays), nblocks=nblocks)
+    fs = MemFS()
+    refused = None
+    with volt_patches(opener=fs.open, proxy=gen_proxy()):
+        arr = A.MultiAntennaArray(num_antennas=nant, sample_rate=1024.0, fch1=4096.0, ascending=True, num_pols=npol, delays=list(delays), seed=5)
+        for ant in arr.antennas:
+            for st in ant.streams:
+                st.add_noise(0, 1)
+        for bg in arr.bg_streams:
+            bg.add_noise(0, 1)
+        fb = PF.PolyphaseFilterbank(num_taps=taps, num_branches=P)
+        T = taps * Wb
+        be = B.RawVoltageBackend(arr, UQ(), fb, UCQ(num_bits=bits), start_chan=0, num_chans=P // 2,
+                                 block_size=T * nant * (P // 2) * 2 * npol, blocks_per_file=2, num_subblocks=nsb)
+        w = npx.sarr([Sym(z3.Real(f'w_{m}')) for m in range(taps * P)])
+        for a in range(nant):
+            for p in range(npol):
+                be.digitizer[a][p].ident = (a, p)
+                be.requantizer[a][p].ident = (a, p)
+                be.filterbank[a][p].window = w
+        ws = [lift(x) for x in w]
+        own = [[st.rng.seed for st in ant.streams] for ant in arr.antennas]
+        bgs = [bg.rng.seed for bg in arr.bg_streams]
+        try:
+            be.record('/mem/arr', num_blocks=nblocks, length_mode='num_blocks', header_dict={}, digitize=True, verbose=False, load_template=False)
+        except AssertionError as e:
+            refused = e
+    mx = max(delays)
+    # request sizes of this partition: first sub-block carries the warm-up window
+    Wsub = -(-Wb // nsb)
+    sizes, left = [], Wb
+    while left > 0:
+        sizes.append(min(Wsub, left) * taps * P)
+        left -= min(Wsub, left)
+    later_small = any(n <= mx for n in sizes[1:] + (sizes if nblocks > 1 else []))
+    first_small = sizes[0] + taps * P <= mx
+    if refused is not None:
+        ok = later_small or first_small
+        r, _ = core.check([RV(int(ok)) != 1])
+        recs.append(q(tag + ':refusal-justified', r, trivial=True, detail=f"sizes {sizes}, max delay {mx}"))
+        if not ok:
+            recs.append(cex('C02:array:refused', f'recording from an array with delays {delays} raised although every request exceeds the largest delay', pl, name=tag + ':refusal-justified'))
+        return recs
+
+    def sample(a, p, i):
+        return ZF(own[a][p], RV(i)) + ZF(bgs[p], RV(i + mx - delays[a]))
+    cfg = (P, taps, Wb, npol, nant, bits, 0, P // 2)
+    dis, total, bi, ok = [], 0, 0, True
+    for nm in fs.names():
+        for blk in [x for x in fs.files[nm] if isinstance(x, npx.SymBytes)]:
+            pairs, size = block_pairs(blk.items, bi, cfg, ws, True, sample)
+            ok = ok and len(blk.items) == size
+            for got, want in pairs:
+                d = z3.simplify(lift(got) - want, som=True)
+                total += 1
+                if not (z3.is_rational_value(d) and d.numerator_as_long() == 0):
+                    dis.append(d != 0)
+            bi += 1
+    if not ok or bi != nblocks:
+        recs.append(q(tag + ':framing', 'sat'))
+        recs.append(cex('C02:array:framing', 'wrong number / size of blocks', pl, name=tag + ':framing'))
+        return recs
+    t0 = time.time()
+    r, m = core.check([z3.Or(*dis)] if dis else [z3.BoolVal(False)], timeout_ms=120000)
+    recs.append(q(tag, r, ms=(time.time() - t0) * 1000, terms=total, by_solver=len(dis)))
+    if r == 'sat':
+        recs.append(cex(f"C02:array:samples:{'small-request' if later_small else 'plain'}", 'bytes recorded from a delayed antenna array differ from the reference pipeline on own + delayed background samples', pl, name=tag))
+    return recs
+
+
+def replay_array(p):
+    """real arrays with deterministic, index-coded own/background samples; recording compared with the reference on
+    own_i(k) + bg(k + max - d_i) (or the configuration must be refused)"""
+    import os
+    import tempfile
+    import shutil
+    from setigen.voltage import backend as bk, polyphase_filterbank as pf, quantization as qz, antenna as an
+    P, taps, Wb, nsb, npol, delays, nblocks = p['P'], p['taps'], p['Wb'], p['nsb'], p['npol'], p['delays'], p['nblocks']
+    nant, T, mx = len(delays), taps * Wb, max(delays)
+    tot = (nblocks * T + taps) * P + mx + 8
+    rng = np.random.default_rng(5)
+    own = rng.normal(0, 20, (nant, npol, tot))
+    bgv = rng.normal(0, 20, (npol, tot))
+
+    def mk():
+        arr = an.MultiAntennaArray(num_antennas=nant, sample_rate=1024.0, fch1=4096.0, ascending=True, num_pols=npol, delays=list(delays), seed=1)
+        for a, ant in enumerate(arr.antennas):
+            for q_, st in enumerate(ant.streams):
+                st.add_signal(lambda ts, a=a, q_=q_: own[a, q_, np.rint(np.asarray(ts) * 1024.0).astype(int)])
+        for q_, bg in enumerate(arr.bg_streams):
+            bg.add_signal(lambda ts, q_=q_: bgv[q_, np.rint(np.asarray(ts) * 1024.0).astype(int)])
+        return arr
+
+    class FQ(qz.RealQuantizer):
+        def quantize(s, v, custom_std=None):
+            return np.clip(np.around(v), -128, 127)
+
+    class FCQ(qz.ComplexQuantizer):
+        def quantize(s, v, custom_stds=None):
+            return np.clip(np.around(np.real(v) * 0.5), -128, 127) + 1j * np.clip(np.around(np.imag(v) * 0.5), -128, 127)
+    d = tempfile.mkdtemp(prefix='c02a_', dir='/var/tmp')
+    try:
+        be = bk.RawVoltageBackend(mk(), FQ(), pf.PolyphaseFilterbank(num_taps=taps, num_branches=P), FCQ(num_bits=8), start_chan=0, num_chans=P // 2,
+                                  block_size=T * nant * (P // 2) * 2 * npol, blocks_per_file=2, num_subblocks=nsb)
+        Wsub = -(-Wb // nsb)
+        sizes, left = [], Wb
+        while left > 0:
+            sizes.append(min(Wsub, left) * taps * P)
+            left -= min(Wsub, left)
+        small = any(n <= mx for n in sizes[1:] + (sizes if nblocks > 1 else [])) or sizes[0] + taps * P <= mx
+        try:
+            be.record(os.path.join(d, 'o'), num_blocks=nblocks, length_mode='num_blocks', header_dict={}, digitize=True, verbose=False, load_template=False)
+        except AssertionError:
+            return (not small), f"recording refused (requests {sizes}, largest delay {mx})"
+        got = []
+        for i in range(-(-nblocks // 2)):
+            raw = open(os.path.join(d, f'o.{i:04d}.raw'), 'rb').read()
+            pos = 0
+            while pos < len(raw):
+                end = raw.index(b'END' + b' ' * 77, pos) + 80
+                got.append(np.frombuffer(raw[end:end + be.block_size], dtype=np.int8).copy())
+                pos = end + be.block_size
+        w = np.array(be.filterbank[0][0].window)
+        want = []
+        streams = np.array([[np.clip(np.around(own[a, q_, :tot - mx - 8] + bgv[q_, mx - delays[a]:mx - delays[a] + tot - mx - 8]), -128, 127) for q_ in range(npol)] for a in range(nant)])
+        from props.C08 import ref_pfb
+        for b in range(nblocks):
+            blk = np.zeros((nant * (P // 2), T, npol, 2), dtype=np.int8)
+            for a in range(nant):
+                for q_ in range(npol):
+                    spec = ref_pfb(streams[a, q_, :(nblocks * T + taps) * P], w, P, taps)[b * T:(b + 1) * T, :P // 2]
+                    blk[a * (P // 2):(a + 1) * (P // 2), :, q_, 0] = np.clip(np.around(spec.real * 0.5), -128, 127).T
+                    blk[a * (P // 2):(a + 1) * (P // 2), :, q_, 1] = np.clip(np.around(spec.imag * 0.5), -128, 127).T
+            want.append(blk.reshape(-1))
+        if len(got) != nblocks:
+            return True, f"{len(got)} blocks recorded, {nblocks} requested"
+        nbad = sum(int(np.sum(g != w_)) for g, w_ in zip(got, want))
+        return nbad > 0, f"{nbad} recorded bytes differ from the reference on own + delayed background (requests {sizes}, delays {delays})"
+    finally:
+        shutil.rmtree(d, ignore_errors=True)
 
 
 def job_partition(P, taps, Wb, npol, bits):
@@ -522,7 +672,7 @@ def replay_record(p):
     return False, 'recorded bytes equal the reference pipeline'
 
 
-REPLAYS = {'record': replay_record}
+REPLAYS = {'record': replay_record, 'array': replay_array}
 
 
 def main():
@@ -557,6 +707,10 @@ def main():
             jobs.append(('job_record', (P, taps, Wb, nsb, 1, 1, 4, 1, 1, 2, 1, False)))
     for (P, taps, Wb, npol, bits) in [(4, 2, 3, 2, 8), (4, 2, 4, 1, 4)] + ([(4, 3, 5, 2, 8), (8, 2, 3, 2, 4)] if ck.thorough else []):
         jobs.append(('job_partition', (P, taps, Wb, npol, bits)))
+    # the real MultiAntennaArray as the source (own + delayed shared background), incl. delays exceeding later requests
+    for args in [(4, 2, 3, 3, 1, (0, 3), 2), (4, 2, 3, 3, 1, (0, 10), 2), (4, 2, 3, 2, 2, (2, 0, 1), 3), (4, 2, 3, 2, 1, (0, 9), 2), (4, 1, 4, 3, 1, (5, 0), 2), (4, 2, 2, 1, 1, (0, 17), 2)] + \
+                ([(8, 2, 3, 2, 2, (0, 7), 3), (4, 3, 5, 3, 1, (13, 2, 0), 2), (4, 2, 5, 5, 1, (0, 8), 2)] if ck.thorough else []):
+        jobs.append(('job_array_source', args))
     global TILING_BOUND
     TILING_BOUND = 256 if not ck.thorough else 1024
     for taps in ((2, 8) if not ck.thorough else (1, 2, 3, 4, 8, 16)):
